@@ -64,6 +64,8 @@ def n_next(ex, callee, a, env):
     if it.pos >= it.sl.len:
         return NONE()
     r = Ref(it.sl.buf, it.sl.start + it.pos)
+    if it.by_value:
+        r = r.get()
     i = it.pos
     it.pos += 1
     return Some(Tup([i, r])) if it.enum else Some(r)
@@ -75,6 +77,8 @@ def n_position(ex, callee, a, env):
     i = 0
     while it.pos < it.sl.len:
         r = Ref(it.sl.buf, it.sl.start + it.pos)
+        if it.by_value:
+            r = r.get()
         it.pos += 1
         res = ex.call_value(f, [r])
         if ex.truth(res):
@@ -1619,3 +1623,94 @@ def n_iter_mut(ex, callee, a, env):
     if callee.endswith('iter_mut'):
         return Iter(as_slice(a[0]))
     raise Unsupported('raw pointer to slice')
+
+
+# ----------------------------------------------------------------------------- str::chars / char helpers
+class CharsIter:
+    __slots__ = ('sl', 'pos')
+
+    def __init__(s, sl):
+        s.sl, s.pos = sl, 0
+
+
+@native(r'^(core::)?str::<impl str>::chars$|^str::chars$', 'str::chars')
+def n_chars(ex, callee, a, env):
+    return CharsIter(as_slice(a[0]))
+
+
+def _z32(b):
+    return b if isinstance(b, int) else z3.ZeroExt(24, b)
+
+
+@native(r'^<(core::)?(str::)?(iter::)?Chars<.*> as Iterator>::next$|^<Chars<.*> as Iterator>::next$', 'Chars::next')
+def n_chars_next(ex, callee, a, env):
+    it = deref(a[0])
+    items = it.sl.items()
+    if it.pos >= len(items):
+        return NONE()
+    T = ex.truth
+    b0 = items[it.pos]
+    if T(in_range(b0, 0, 0x7F)):
+        it.pos += 1
+        return Some(_z32(b0))
+    # a &str is valid UTF-8 by construction: decode by the lead byte
+    def cont(k):
+        return _z32(items[it.pos + k]) & 0x3F
+    if T(in_range(b0, 0xC0, 0xDF)):
+        c = ((_z32(b0) & 0x1F) << 6) | cont(1)
+        it.pos += 2
+        return Some(c)
+    if T(in_range(b0, 0xE0, 0xEF)):
+        c = ((_z32(b0) & 0x0F) << 12) | (cont(1) << 6) | cont(2)
+        it.pos += 3
+        return Some(c)
+    c = ((_z32(b0) & 0x07) << 18) | (cont(1) << 12) | (cont(2) << 6) | cont(3)
+    it.pos += 4
+    return Some(c)
+
+
+@native(r'^(core::)?char::methods::<impl char>::len_utf8$|^char::len_utf8$', 'char::len_utf8')
+def n_len_utf8(ex, callee, a, env):
+    c = a[0]
+    T = ex.truth
+    if isinstance(c, int):
+        return 1 if c < 0x80 else 2 if c < 0x800 else 3 if c < 0x10000 else 4
+    if T(z3.ULT(c, 0x80)):
+        return 1
+    if T(z3.ULT(c, 0x800)):
+        return 2
+    if T(z3.ULT(c, 0x10000)):
+        return 3
+    return 4
+
+
+@native(r'^(core::)?char::methods::<impl char>::encode_utf8$|^char::encode_utf8$', 'char::encode_utf8')
+def n_encode_utf8(ex, callee, a, env):
+    c, dst = a[0], as_slice(a[1])
+    n = n_len_utf8(ex, callee, [c], env)
+    if n > dst.len:
+        raise Panic('encode_utf8: buffer too small')
+
+    def byte(x):
+        return (x & 0xFF) if isinstance(x, int) else z3.Extract(7, 0, x)
+    if n == 1:
+        bs = [byte(c)]
+    elif n == 2:
+        bs = [byte((c >> 6) | 0xC0), byte((c & 0x3F) | 0x80)]
+    elif n == 3:
+        bs = [byte((c >> 12) | 0xE0), byte(((c >> 6) & 0x3F) | 0x80), byte((c & 0x3F) | 0x80)]
+    else:
+        bs = [byte((c >> 18) | 0xF0), byte(((c >> 12) & 0x3F) | 0x80), byte(((c >> 6) & 0x3F) | 0x80), byte((c & 0x3F) | 0x80)]
+    if not isinstance(c, int):
+        bs = [z3.simplify(x) if not isinstance(x, int) else x for x in bs]
+    for i, x in enumerate(bs):
+        dst.buf[dst.start + i] = x
+    return Slice(dst.buf, dst.start, n, True)
+
+
+@native(r'^(core::)?str::<impl str>::(bytes)$|^str::bytes$', 'str::bytes')
+def n_str_bytes(ex, callee, a, env):
+    it = Iter(as_slice(a[0]))
+    it.enum = False
+    it.by_value = True
+    return it
